@@ -3,7 +3,7 @@
 From Coq Require Import List NArith Bool Lia.
 From Breadlog Require Import Model.Peg Model.Text Model.Regex Model.Glue Model.Tables Model.Utf8 Model.Driver Model.History.
 From Breadlog Require Import Gen.Consts.
-From Breadlog Require Import Proofs.RewriteFacts Proofs.WorldFacts Proofs.DriverFacts Proofs.AllocFacts Proofs.RunFacts Proofs.HistoryFacts Proofs.CheckFacts.
+From Breadlog Require Import Proofs.RewriteFacts Proofs.WorldFacts Proofs.DriverFacts Proofs.AllocFacts Proofs.RunFacts Proofs.HistoryFacts Proofs.CheckFacts Proofs.StatementLemmas Proofs.FileSpec Proofs.CanonicalRun.
 From Breadlog Require Import Properties.Common.
 Import ListNotations.
 Open Scope N_scope.
@@ -46,6 +46,24 @@ Proof.
     unfold after, world0, Common.edit. rewrite Hc, Hout. reflexivity.
 Qed.
 
+(* THE SAME FROM THE FILE'S TEXT ALONE, for every file of the canonical file language of
+   Proofs/FileSpec.v (see C10_canonical_files): the places are those `expected` computes from the text --
+   in message style the first character of the message value of each statement with a configured name,
+   no ignore directive and no reference yet -- and nothing else in the file changes. *)
+Theorem C03_canonical_files : forall rc files lk o j b its fin,
+  files <> [] -> nth_error files j = Some b ->
+  utf8_decode b = Some (render_items its fin) -> items_ok its fin -> o_rfail2 o j = false ->
+  let new := nth_error (w_src (after rc files lk o)) j in
+  let todo := filter missing_insert (expected (rc_cfg rc) (render_items its fin) its []) in
+  new = Some b \/
+  exists c0 chunks last,
+    todo <> [] /\
+    new = Some (zip_new chunks (tokens the_params todo c0) last) /\
+    b = (concat chunks ++ last)%list /\
+    length chunks = length todo /\
+    map e_pos todo = offsets 0 chunks.
+Proof. exact canonical_file_after_edit. Qed.
+
 (* non-vacuity / shape check on a concrete file with a multi-byte character and CRLF *)
 Example C03_nonvacuous :
   let f := utf8_encode [252;59;13;10;105;110;102;111;33;40;34;91;114;101;102;58;32;51;93;32;97;34;41;59;105;110;102;111;33;40;34;98;34;41;59] in
@@ -56,3 +74,4 @@ Example C03_nonvacuous :
 Proof. vm_compute. reflexivity. Qed.
 
 Print Assumptions C03_insert_only.
+Print Assumptions C03_canonical_files.
